@@ -484,13 +484,21 @@ func c04multiExec(c *h.Ctx, cs *h.Case) {
 			} else {
 				cs.Impl = append(cs.Impl, strings.Join(obs, "|"))
 			}
-		case (len(tk) == 6 || len(tk) == 7) && tk[1] == "inst":
+		case (len(tk) == 6 || len(tk) == 7 || (len(tk) == 8 && tk[6] == "parked" && tk[7] == "sibling")) && tk[1] == "inst":
 			id, _ := strconv.Atoi(tk[2])
 			k, _ := strconv.Atoi(tk[4])
 			in := &c04inst{id: id, k: k, isRoot: tk[3] == "root", std: tk[5] == "std", round: uuid.New(),
 				pend: map[int][]string{}, sent: map[int]string{}, seen: map[int]bool{}, inChan: map[int][]string{},
 				occ: map[int]int{}}
-			if in.std && len(tk) == 7 && tk[6] == "parked" {
+			if in.std && len(tk) == 8 {
+				// `parked sibling`: the server does not know the instance's tree, but it stores ANOTHER tree over the same
+				// servers in the same depth-first order (a chain where the instance's tree fans out): the two must not be
+				// taken for one another (their ids differ because the tree id depends on the structure)
+				in.parked = true
+				var chain *onet.Tree
+				in.ct, chain = f.siblingTrees(in.isRoot, k)
+				f.cl.Overlay(in.ct.srv).RegisterTree(chain)
+			} else if in.std && len(tk) == 7 && tk[6] == "parked" {
 				in.parked = true
 				in.ct = f.unknownTree(in.isRoot, k, rand.New(rand.NewSource(c.Seed*1000003+atomic.AddInt64(&c02unknown, 1))))
 				in.ct.t.ID = onet.TreeID(uuid.New()) // a tree id the server has never seen, whatever ran before in this process
@@ -514,7 +522,7 @@ func c04multiExec(c *h.Ctx, cs *h.Case) {
 			}
 			insts[id] = in
 			if in.std {
-				if len(tk) == 7 && !in.window && !in.parked {
+				if len(tk) >= 7 && !in.window && !in.parked {
 					cs.Impl = append(cs.Impl, "bad-op")
 					continue
 				}
@@ -888,6 +896,32 @@ func c04multiGen(c *h.Ctx, yield func(*h.Case)) {
 			return "root"
 		}
 		return "inner"
+	}
+	// --- an instance whose tree the server does not know while it stores a chain over the same servers in the same
+	// depth-first order (seeded C04r6-B: a tree id that does not depend on the structure makes the server run the
+	// instance on the stored chain: fan-out 1): the whole round is parked, arrives with the tree, then further rounds
+	for n := 0; n < c.Pick(12, 120); n++ {
+		root := n%2 == 0
+		k := 2 + (n/2)%3
+		if n >= 6 {
+			k = 2 + r.Intn(c.Pick(4, 7))
+		}
+		ty := 1 + (n/2)%2
+		cs := &h.Case{Class: "sibling premise"}
+		cs.Ops = append(cs.Ops, fmt.Sprintf("c04 inst 0 %s %d std parked sibling", side(root), k))
+		for _, j := range r.Perm(k) {
+			val++
+			cs.Ops = append(cs.Ops, fmt.Sprintf("c04 imsg 0 %d %d %d", ty, j, val))
+		}
+		cs.Ops = append(cs.Ops, "c04 iarrive 0")
+		for rd := 0; rd < 1+r.Intn(2); rd++ {
+			for _, j := range r.Perm(k) {
+				val++
+				cs.Ops = append(cs.Ops, fmt.Sprintf("c04 imsg 0 %d %d %d", ty, j, val))
+			}
+		}
+		c.Count(fmt.Sprintf("class=sibling premise %s fanout=%d type=%d", side(root), k, ty))
+		yield(cs)
 	}
 	// --- instances whose tree the server does not know yet (their children's messages are parked by the overlay) while a
 	// flush of another tree hands over a message that cannot be delivered: messages parked meanwhile, trees arriving
